@@ -36,16 +36,17 @@ pub fn runtime(seed: u64) -> tokio::runtime::Runtime {
         .expect("runtime")
 }
 
-/// Per-process scratch directory (removed by `cleanup_scratch`).
+/// Per-process scratch directory below the scratch root of the top-level process (which removes
+/// the whole root when it exits, see `main`).
 pub fn scratch_dir() -> std::path::PathBuf {
-    let d = std::env::temp_dir().join(format!("opcua-verif-{}", std::process::id()));
+    let root = std::env::var("VERIF_SCRATCH").map(std::path::PathBuf::from).unwrap_or_else(|_| std::env::temp_dir().join(format!("opcua-verif-run-{}", std::process::id())));
+    let d = root.join(format!("p{}", std::process::id()));
     let _ = std::fs::create_dir_all(&d);
     d
 }
 
 pub fn cleanup_scratch() {
-    let d = std::env::temp_dir().join(format!("opcua-verif-{}", std::process::id()));
-    let _ = std::fs::remove_dir_all(d);
+    let _ = std::fs::remove_dir_all(scratch_dir());
 }
 
 /// A PKI directory holding the server's own certificate (identity b) for `bits`.
